@@ -198,6 +198,7 @@ class Executor:
             m1 = S.Model()
             m1.spec, m1.vars, m1.params, m1.elems, m1.exprs, m1.cons = m0.spec, m0.vars, m0.params, m0.elems, m0.exprs, m0.cons
             m1.views = m0.views
+            m1.buffers = m0.buffers
             m1.problem = ox.Problem(m0.spec.get("name"))
             self.models[new_mid] = m1
             # bound / domain edits and parameter values are properties of the shared objects
@@ -308,6 +309,14 @@ class Executor:
             if i != added:
                 raise HarnessError(f"subject_to_bad: {added} constraints were added, not expressible as a pool prefix ({i})")
             sh["cons"].extend(done)
+        elif k == "buffer_write":
+            # the user overwrites one of THEIR coefficient arrays in place (the next data window).
+            # No optyx call is involved, and the models built from the array mean the numbers they
+            # were built with: the shadow state does not change.
+            import numpy as np
+
+            if op[2] in m.buffers:
+                m.buffers[op[2]][...] = np.array(op[3], dtype=float)
         elif k in ("set_lb", "set_ub", "set_domain"):
             attr = k[4:]
             setattr(m.elems[op[2]], attr, op[3])
